@@ -21,6 +21,7 @@ fn main() {
         "c03" => pv::connrun::run_c03(&args),
         "c10" => pv::connrun::run_c10(&args),
         "c04" => pv::byterun::run_c04(&args),
+        "c12" => pv::c12::run(&args),
         "c08" => pv::byterun::run_c08(&args),
         other => {
             eprintln!("unknown runner {other}");
